@@ -62,6 +62,31 @@ def cipher_units(scheme, sch, edb):
     return out
 
 
+def spellings(b):
+    """Other spellings under which a byte string can sit in a serialized object without being found by a plain
+    substring search: hexadecimal, base64, reversed, escaped as in repr(), the decimal / hexadecimal numeral of its
+    big-endian value, UTF-16.  (8-16 random bytes: chance matches are out of the question for every one of them.)"""
+    import base64
+    out = {"hex": b.hex().encode(), "HEX": b.hex().upper().encode(), "base64": base64.b64encode(b).rstrip(b"="),
+           "urlsafe-base64": base64.urlsafe_b64encode(b).rstrip(b"="), "reversed": b[::-1],
+           "repr-escaped": repr(b)[2:-1].encode(), "decimal": str(int.from_bytes(b, "big")).encode(),
+           "little-endian-decimal": str(int.from_bytes(b, "little")).encode(),
+           "utf-16-le": b"".join(bytes([x, 0]) for x in b), "base32": base64.b32encode(b).rstrip(b"=")}
+    return {k: v for k, v in out.items() if v != b and len(v) >= 8}
+
+
+def scan_spellings(raw, values, what, where, scheme, short, acc, case):
+    for v in values:
+        for name, sp in spellings(v).items():
+            acc.count("spellings_searched")
+            if sp in raw:
+                acc.violation(f"{short}:{what}-in-{where}:{name}",
+                              f"{scheme}: a stored {what} occurs in the serialized {where} spelled as {name}",
+                              dict(case, **{what: v}))
+                return True
+    return False
+
+
 def run_case(scheme, cid, cfg, cls, db, acc, rng, fresh_object=False):
     short = gen.SHORT[scheme]
     L = sse.loader(scheme)
@@ -134,6 +159,13 @@ def run_case(scheme, cid, cfg, cls, db, acc, rng, fresh_object=False):
                 acc.violation(f"{short}:identifier-in-index", f"{scheme}: a stored identifier ({len(i)} bytes) occurs "
                                                               f"verbatim in EDB.serialize()", dict(case, identifier=i))
                 return True
+    sample_kw = keywords if len(keywords) <= 6 else rng.sample(keywords, 6)
+    if scan_spellings(raw1, sample_kw, "keyword", "index", scheme, short, acc, case):
+        return True
+    if scheme != "CGKO06.SSE2":
+        sample_ids = ids if len(ids) <= 6 else rng.sample(ids, 6)
+        if scan_spellings(raw1, sample_ids, "identifier", "index", scheme, short, acc, case):
+            return True
     toks = keywords if len(keywords) <= 12 else rng.sample(keywords, 12)
     for w in toks:
         try:
@@ -143,6 +175,8 @@ def run_case(scheme, cid, cfg, cls, db, acc, rng, fresh_object=False):
             continue
         acc.count("tokens_scanned")
         acc.count("bytes_scanned", len(tb))
+        if scan_spellings(tb, [w], "keyword", "token", scheme, short, acc, case):
+            return True
         if w in tb:
             acc.violation(f"{short}:keyword-in-token", f"{scheme}: the keyword occurs verbatim in its serialized token",
                           dict(case, keyword=w))
